@@ -15,7 +15,8 @@ pub fn register_ops_file(path: &str) {
         let name = o[0].as_str().unwrap();
         let prec = o[1].as_i64().unwrap() as i32;
         let assoc = if o[2] == "R" { InfixOpAssociativity::RIGHT } else { InfixOpAssociativity::LEFT };
-        expression_engine::register_infix_op(name, prec, InfixOpType::CALC, assoc, Arc::new(|a, _| Ok(a)));
+        let ty = if o.get(3).map(|t| t == "SETTER").unwrap_or(false) { InfixOpType::SETTER } else { InfixOpType::CALC };
+        expression_engine::register_infix_op(name, prec, ty, assoc, Arc::new(|a, _| Ok(a)));
     }
 }
 
